@@ -78,6 +78,19 @@ var trapKinds = []trapKind{
 	26: {"atomic.wait32-unshared", "expected shared memory"},
 }
 
+// nBaseTraps: the hand-written kinds above; the kinds after them are generated
+// from the atomic instruction table (out-of-bounds and unaligned variant of
+// every atomic instruction, on the instance's own unshared memory).
+var nBaseTraps = len(trapKinds)
+
+var localAtomicKinds = atomicKinds(false)
+
+func init() {
+	for _, ak := range localAtomicKinds {
+		trapKinds = append(trapKinds, trapKind{ak.name(), ak.class()})
+	}
+}
+
 type guestOpts struct {
 	Peer  bool // import peer.nest and export via_peer
 	Start bool // start section = boot
@@ -151,6 +164,10 @@ func buildGuest(o guestOpts) []byte {
 	m.ExportFunc("tcall", m.AddFunc(nil, []byte{i32}, nil, c.B))
 	// tprobe() -> i32: effect-free call of slot 0
 	m.ExportFunc("tprobe", m.AddFunc(nil, []byte{i32}, nil, code().I32Const(0).CallIndirect(tI32, 0).End().B))
+	// aprobe(addr) -> i64: value-neutral use of every atomic instruction on the cell, then its value
+	c = code()
+	emitAtomicProbe(c, 0, false)
+	m.ExportFunc("aprobe", m.AddFunc([]byte{i32}, []byte{i64}, nil, c.End().B))
 	// tnull(idx) -> i32
 	m.ExportFunc("tnull", m.AddFunc([]byte{i32}, []byte{i32}, nil, code().LocalGet(0).TableGet(0).RefIsNull().End().B))
 
@@ -192,6 +209,10 @@ func buildGuest(o guestOpts) []byte {
 	kase(24, func(c *wenc.Code) { c.F64(-1.5).Op(0xb1).Drop() })
 	kase(25, func(c *wenc.Code) { c.F32Const(0xffc00001).Op(0xae).Drop() })
 	kase(26, func(c *wenc.Code) { z(c, 16).I32Const(0).I64Const(1000).Prefixed(0xfe, 0x01).U32(2).U32(0).Drop() })
+	for k, ak := range localAtomicKinds {
+		ak := ak
+		kase(nBaseTraps+k, func(c *wenc.Code) { emitAtomicFailure(c, ak, memBytes, 3) })
+	}
 	// post effects (never reached for a valid kind)
 	bump(c, postTrap)
 	c.LocalGet(1).LocalGet(2).I64Const(-1).Op(0x85).Mem(0x37, 3, 0)
